@@ -78,10 +78,23 @@ def skeleton_cases_permuted(rng, n, tier, res, problems):
             YL, YS = rng.choice([(17, 9), (3, 1), (1, 1), (5, 3), (rng.randint(1, 12), rng.randint(1, 6))])
             if YS > YL:
                 YL, YS = YS, YL
+        eq = rng.random()
+        if kind not in ("cdft_years", "qdm_years") and eq < 0.5:  # equal-length series on different dates, own permutations
+            def same_len(n):
+                st = datetime.date(rng.randint(1960, 2080), 1, 1) + datetime.timedelta(days=rng.randint(0, 365))
+                return probes.dates_from(st, n)
+            if eq < 0.25:
+                dH = same_len(dO.size)
+            elif eq < 0.4:
+                dH = same_len(dF.size)
+            else:
+                dH, dF = same_len(dO.size), same_len(dO.size)
         o = nprs.randint(-9, 10, dO.size).astype(float)
         h = nprs.randint(-9, 10, dH.size).astype(float)
         f = nprs.randint(-9, 10, dF.size).astype(float)
         kinds = pick_kinds(rng)
+        if kind not in ("cdft_years", "qdm_years") and eq < 0.5:
+            kinds = [rng.choice(["full", "blockswap", "rotate"]) for _ in range(3)]
         pO, pH, pF = make_perm(nprs, o.size, kinds[0]), make_perm(nprs, h.size, kinds[1]), make_perm(nprs, f.size, kinds[2])
         case = {"kind": "skeleton-permuted-" + kind, "L": L, "S": S, "YL": YL, "YS": YS, "startF": str(dF[0]), "nF": int(dF.size),
                 "nO": int(dO.size), "nH": int(dH.size), "perms": kinds}
@@ -206,8 +219,26 @@ def gen_case(rng, name, tier):
         spans = {"O": X, "H": cal1, "F": cal2}
     else:
         spans = {"O": cal1, "H": cal2, "F": X}
+    kinds = pick_kinds(rng)
+    # equal-length series (same reference period / same number of steps) stored in DIFFERENT orders: code that reuses the
+    # index set or the order of one series for another one of the same size is only visible then
+    r = rng.random()
+    equal = None
+    if name == "DeltaChange":
+        equal = "OH" if r < 0.5 else ("OHF" if r < 0.6 else None)
+    elif r < 0.45:
+        equal = rng.choice(["OH", "HF", "OHF", "OH", "HF"])
+    if equal:
+        n_eq = max(spans[k]["n"] for k in equal)
+        for k in equal:
+            spans[k] = {"start": list(spans[k]["start"]), "n": n_eq}
+        if rng.random() < 0.3:  # ... also on the very same dates
+            for k in equal[1:]:
+                spans[k]["start"] = list(spans[equal[0]]["start"])
+        for k in equal:  # every series of the group really re-ordered, each with its own permutation
+            kinds["OHF".index(k)] = rng.choice(["full", "full", "blockswap", "rotate"])
     return {"what": "oracle/" + name, "debiaser": name, "L": L, "S": S, "spans": spans, "np_seed": rng.randint(0, 2**31 - 1),
-            "perms": pick_kinds(rng), "verif_seed": C.seed()}
+            "perms": kinds, "equal": equal, "verif_seed": C.seed()}
 
 
 def build(case):
@@ -223,6 +254,9 @@ def build(case):
             yr = lambda dd: np.array([x.year + x.timetuple().tm_yday / 366.0 for x in dd])  # noqa: E731
             o, h, f = o + 0.8 * (yr(d["O"]) - yr(d["O"])[0]), h + 1.1 * (yr(d["H"]) - yr(d["H"])[0]), f + 1.5 * (yr(d["F"]) - yr(d["F"])[0])
     pO, pH, pF = (make_perm(nprs, x.size, k) for x, k in zip((o, h, f), case["perms"]))
+    for a, b in ((pO, pH), (pH, pF), (pO, pF)):  # equal-length series must not share one permutation
+        if a.size == b.size and a.size > 2 and np.array_equal(a, b) and not np.array_equal(a, np.arange(a.size)):
+            b[:] = np.roll(b, 1)
     return mk, seeded, (o, h, f, d["O"], d["H"], d["F"]), (pO, pH, pF)
 
 
@@ -270,7 +304,10 @@ def oracle(rng, names, reps, tier, res, problems):
             case = gen_case(rng, name, tier)
             status, detail = run_case(case)
             nontrivial = any(k != "identity" for k in case["perms"])
-            res.count((name, case["L"], case["S"], tuple(case["perms"]), case["spans"]["F"]["n"]), nontrivial and status == "ok",
+            if case.get("equal") and status == "ok":
+                eqc = res.extra.setdefault("oracle_equal_length_cases", {})
+                eqc[case["equal"]] = eqc.get(case["equal"], 0) + 1
+            res.count((name, case["L"], case["S"], tuple(case["perms"]), case["spans"]["F"]["n"], case.get("equal")), nontrivial and status == "ok",
                       sample={k: case[k] for k in ("debiaser", "L", "S", "perms")} if r == 0 and name in ("ISIMIP", "CDFt-years3/1") else None)
             if status == "violation":
                 problems.append((f"{name}: {detail}", case))
